@@ -113,7 +113,11 @@ class _STIXBase(collections.abc.Mapping):
 
     def _check_object_constraints(self):
         for m in self.get('granular_markings', []):
-            validate(self, m.get('selectors'))
+            # Only granular marking mappings carry selectors; anything else
+            # (e.g. junk in a custom "granular_markings" property of a type
+            # which does not define one) has no selectors to validate.
+            if isinstance(m, collections.abc.Mapping):
+                validate(self, m.get('selectors'))
 
     def __init__(self, allow_custom=False, interoperability=False, **kwargs):
         cls = self.__class__
